@@ -178,7 +178,7 @@ Definition fcrypt (pw salt : list Z) : res (list Z) := fcrypt_kb (keyblock pw) s
 (* cmbbs.GenPasswd with the two salt bytes it drew (each num & 0x7f) as an input *)
 Definition gen_passwd (pw salt : list Z) : res (list Z) :=
   match pw with
-  | [] => Crash                                         (* passwd[0] on an empty slice *)
+  | [] => Ok (repeat 0 14)                              (* len(passwd) == 0 *)
   | c :: _ => if c =? 0 then Ok (repeat 0 14) else fcrypt pw salt
   end.
 
